@@ -186,6 +186,48 @@ fn word_tokens(rng: &mut Rng) -> Vec<String> {
     toks
 }
 
+fn float_tokens(rng: &mut Rng, thorough: bool) -> Vec<String> {
+    let mut v: Vec<String> = Vec::new();
+    for s in ["0", "-0", "+0", "0.0", "-0.0", "1", "1.", ".5", "+.5", "-.5", ".", "e5", "1e", "1e+", "1e5", "1E5", "1e-5", "1.e5", ".e5",
+              "1.5e300", "1e308", "1.7976931348623157e308", "1.7976931348623158e308", "1.7976931348623159e308", "1e309", "-1e309",
+              "4.9e-324", "2.4703282292062327e-324", "2.4703282292062328e-324", "2.5e-324", "1e-400", "2.2250738585072014e-308",
+              "2.2250738585072011e-308", "3.4028235e38", "3.4028236e38", "3.4028234663852886e38", "3.4028235677973366e38", "1e39",
+              "1.401298464324817e-45", "7e-46", "7.1e-46", "1.00000005960464477540", "1.0000000596046448", "9007199254740993",
+              "9007199254740992", "9007199254740991", "0.1", "0.3", "123456789012345678901234567890", "1e22", "1e23", "8.5", "16777217",
+              "inf", "+inf", "-inf", "Inf", "INF", "infinity", "-Infinity", "nan", "NaN", "-nan", "+NAN", ".inf", ".Inf", ".INF", "+.inf", "-.inf",
+              "-.INF", ".nan", ".NaN", ".NAN", "+.nan", "-.nan", "..inf", ".infinity", "1_000.0", "1_0", "0x10", "1e1_0", " 1.5 ", "\t2e2\n",
+              "\u{a0}3.5", "1.5 x", "1 .5", "+-1", "--1", "1e5.5", "1.2.3", "٣.٥", "1e99999999999", "1e-99999999999", "0e99999999999",
+              "0.000000000000000000000000000000000000000000001e60", "1000000000000000000000000000000000000000000e-30"] {
+        v.push(s.replace("\\t", "\t").replace("\\n", "\n").to_string());
+    }
+    let n = if thorough { 200000 } else { 8000 };
+    for _ in 0..n {
+        match rng.below(4) {
+            0 => { let b = rng.next(); let f = f64::from_bits(b); if f.is_finite() { v.push(format!("{:e}", f)); v.push(format!("{}", f)); } }
+            1 => { let b = rng.next() as u32; let f = f32::from_bits(b); if f.is_finite() { v.push(format!("{:e}", f)); v.push(format!("{}", f)); } }
+            2 => {
+                // random decimal with many digits near rounding boundaries
+                let nd = 1 + rng.below(25);
+                let mut s: String = (0..nd).map(|_| char::from(b'0' + rng.below(10) as u8)).collect();
+                if rng.chance(1, 2) { let p = rng.below(s.len() + 1); s.insert(p, '.'); }
+                if rng.chance(1, 2) { s.push_str(&format!("e{}", rng.below(700) as i64 - 350)); }
+                if rng.chance(1, 4) { s.insert(0, '-'); }
+                v.push(s);
+            }
+            _ => {
+                // halfway cases for f32: x + half ulp written exactly
+                let b = (rng.next() as u32) & 0x7f7f_ffff;
+                let f = f32::from_bits(b) as f64;
+                let g = f32::from_bits(b + 1) as f64;
+                if g.is_finite() { let mid = (f + g) / 2.0; v.push(format!("{:e}", mid)); }
+            }
+        }
+    }
+    v.sort();
+    v.dedup();
+    v
+}
+
 fn b64_tokens(rng: &mut Rng, thorough: bool) -> Vec<Vec<u8>> {
     use std::collections::BTreeSet;
     let mut set: BTreeSet<Vec<u8>> = BTreeSet::new();
@@ -285,6 +327,16 @@ fn generate(a: &Args) -> i32 {
             sink.case(&format!("c06 nullish {st} {hx}"), b(r));
             sink.case(&format!("c06 nullish_opt {st} {hx}"), b(h::scalar_is_nullish_for_option(t, st)));
         }
+    }
+    let floats = float_tokens(&mut rng, a.thorough);
+    for t in &floats {
+        let hx = hex(t);
+        let r = h::parse_f64(t);
+        sink.count(if r.is_some() { "f64.accept" } else { "f64.reject" });
+        let show = |bits: u64, nan: bool| if nan { "nan".to_string() } else { bits.to_string() };
+        sink.case(&format!("c06 float 64 {hx}"), &opt(&r, |v| show(*v, f64::from_bits(*v).is_nan())));
+        let r = h::parse_f32(t);
+        sink.case(&format!("c06 float 32 {hx}"), &opt(&r, |v| show(*v as u64, f32::from_bits(*v).is_nan())));
     }
     let b64 = b64_tokens(&mut rng, a.thorough);
     for t in &b64 {
